@@ -325,13 +325,16 @@ def _fragment(V):
 def _threedify(V):
     I, st = V.I, V.st
     from contracts import mol as M
-    case = V.choose(["ring-bond/1", "chain-bond/2", "ring-bond/2", "chain-bond/1"], "bond/|sign|")
+    case = V.choose(["ring-bond/1", "chain-bond/2", "ring-bond/2", "chain-bond/1", "chain-bond-at-4-valent-centre/1"], "bond/|sign|")
     mag = int(case[-1])
     ring = case.startswith("ring")
     BONDS = ((0, 1), (1, 2), (2, 0), (0, 3), (1, 4), (3, 5))
+    if "4-valent" in case:
+        BONDS = BONDS + ((0, 4),)
+    angles = []
     rot = [[V.sym(f"rot{i}{j}", "real") for j in range(3)] for i in range(3)]
     I.stubs["molli.math.plane:mean_plane"] = lambda I_, f, a, k: NP.mk([V.sym("nx", "real"), V.sym("ny", "real"), V.sym("nz", "real")], "float")
-    I.stubs["molli.math.rotation:rotate_2dvec_outa_plane"] = lambda I_, f, a, k: NP.mk([list(r) for r in rot], "float")
+    I.stubs["molli.math.rotation:rotate_2dvec_outa_plane"] = lambda I_, f, a, k: angles.append(a[1]) or NP.mk([list(r) for r in rot], "float")
     res = {}
     for sgn in (+mag, -mag):
         m = M.mk_mol(V, "Molecule", 6, BONDS, name="m", labels=None)
@@ -346,7 +349,7 @@ def _threedify(V):
         if not out.returned:
             return
         V.ensure("post/graph-untouched", z3.BoolVal(len(m.fields["_atoms"].items) == 6 and all(x is y for x, y in zip(m.fields["_atoms"].items, atoms))
-                                                    and len(m.fields["_bonds"].items) == 6 and all(x is y for x, y in zip(m.fields["_bonds"].items, bonds))))
+                                                    and len(m.fields["_bonds"].items) == len(BONDS) and all(x is y for x, y in zip(m.fields["_bonds"].items, bonds))))
         co = m.fields["_coords"]
         ok = isinstance(co, NdArr) and NP.ashape(co) == (6, 3)
         V.ensure("post/coordinates-stay-rectangular", z3.BoolVal(ok))
@@ -366,6 +369,10 @@ def _threedify(V):
         if mag == 2:
             V.ensure("post/bold-hash-displace-along-z-only", z3.And(*[R(a1[i][1]) == R(b1[i][1]) for i in range(6)]))
     else:
+        import math
+        want = math.radians(90) if "4-valent" in case else math.radians(60)
+        V.ensure("post/out-of-plane-angle-is-odd-in-the-sign-with-the-documented-magnitude",
+                 z3.BoolVal(len(angles) == 2) if len(angles) != 2 else z3.And(R(angles[0]) == z3.RealVal(repr(want)), R(angles[1]) == -z3.RealVal(repr(want))))
         # wedge on a chain bond 0->3: only the substituent reached through atom 3 (atoms 3, 5) is rotated about atom 0
         V.ensure("post/only-the-substituent-beyond-the-wide-end-moves", z3.And(*[R(a1[i][c]) == R(b1[i][c]) for i in (0, 1, 2, 4) for c in range(3)]))
         def rotated(after, before, i):
@@ -435,6 +442,83 @@ def _getitem(V):
     o3 = V.method(me, "__getitem__", [0], qual=f"{CD}:CDXMLFile.__getitem__")
     if o1.returned:
         V.ensure("post/integer-key-is-the-nth-label", z3.BoolVal(o3.returned and parsed[-1][0] is parsed[0][0] and parsed[-1][1] == "k1"))
+
+
+@P.unit(f"{CD}:CDXMLFile.__attrs_post_init__", name="CDXMLFile(path): labels and fragments discovered per file; two open files with the same label resolve independently",
+        functions=[f"{CD}:CDXMLFile.__attrs_post_init__", f"{CD}:CDXMLFile.__getitem__", f"{CD}:validate_label", f"{CD}:validate_fragment", f"{CD}:CDXMLFile.keys"])
+def _two_files(V):
+    I, st = V.I, V.st
+    obj = I.builtins["object"]
+
+    def page(tagid):
+        f0 = X.elem(I, "fragment", {"id": f"{tagid}0"}, [X.elem(I, "n", {"id": "1"}), X.elem(I, "b", {"id": "2"})])
+        f1 = X.elem(I, "fragment", {"id": f"{tagid}1"}, [X.elem(I, "b", {"id": "3"})])
+        junk = X.elem(I, "fragment", {"id": f"{tagid}9"}, [X.elem(I, "n", {"id": "4"})])          # no bond: not a chemical fragment
+        lab = X.elem(I, "t", {"id": f"{tagid}5"}, [X.elem(I, "s", {"face": "1"}, text="k1")])
+        lab2 = X.elem(I, "t", {"id": f"{tagid}6"}, [X.elem(I, "s", {"face": "1"}, text="k2")])
+        cap = X.elem(I, "t", {"id": f"{tagid}7"}, [X.elem(I, "s", {"face": "0"}, text="caption")])   # not bold: not a label
+        two = X.elem(I, "t", {"id": f"{tagid}8"}, [X.elem(I, "s", {"face": "1"}, text="x"), X.elem(I, "s", {"face": "1"}, text="y")])
+        grp = X.elem(I, "group", {}, [f1, lab2])
+        pg = X.elem(I, "page", {}, [f0, junk, lab, cap, two, grp])
+        root = X.elem(I, "CDXML", {"BondLength": "14.4"}, [pg])
+        return root, f0, f1, lab, lab2
+
+    trees = {}
+
+    def et_parse(i, a, k):
+        root = trees[a[0]][0]
+        T_ = ClassV("ElementTree", builtin=True, bases=[obj])
+        T_.compute_mro()
+        T_.ns["getroot"] = Builtin("getroot", lambda i2, a2, k2: root)
+        T_.ns["findall"] = Builtin("findall", lambda i2, a2, k2: ListV(X.select(root, a2[1])))
+        T_.ns["find"] = Builtin("find", lambda i2, a2, k2: (X.select(root, a2[1]) or [None])[0])
+        return Obj(T_, {}, tag="etree")
+    I.ext_models["xml.etree.cElementTree.parse"] = Builtin("et.parse", et_parse)
+    ys = {}
+
+    def pos_stub(I_, f, args, kw):
+        n = args[0]
+        return ys.setdefault(id(n), (V.sym(f"x{len(ys)}", "real"), V.sym(f"y{len(ys)}", "real")))
+    I.stubs[f"{CD}:position"] = pos_stub
+    parsed = []
+    I.stubs[f"{CD}:CDXMLFile._parse_fragment"] = lambda I_, f, args, kw: parsed.append((args[0], args[1], kw.get("name"))) or Opaque(f"obj:mol{len(parsed)}")
+    KD = ClassV("KDTree", builtin=True, bases=[obj])
+    KD.compute_mro()
+    KD.ns["__pyvc_new__"] = lambda i, c, a, k: Obj(KD, {"pts": a[0]}, tag="kdtree")
+    KD.ns["query"] = Builtin("KDTree.query", lambda i, a, k: (Opaque("obj:dd"), ListV([0, 1])))
+    I.ext_models["scipy.spatial.KDTree"] = KD
+    I.ext_models["warnings.warn"] = Builtin("warn", lambda i, a, k: None)
+    trees["a.cdxml"] = page("a")
+    trees["b.cdxml"] = page("b")
+    cls = V.cls(f"{CD}:CDXMLFile")
+    V.witness(lambda ev: {"op": "getitem", "signature": "two-files"})
+    V.cover()
+    try:
+        fa = I.call(cls, ["a.cdxml"], {})
+        fb = I.call(cls, ["b.cdxml"], {})
+    except PyExc as ex:
+        V.ensure("files/open", z3.BoolVal(False), raised=repr(ex.value) + repr(getattr(ex.value, "fields", None)))
+        return
+    V.ensure("files/open", z3.BoolVal(True))
+    for nm, f_, (root, f0, f1, lab, lab2) in (("a", fa, trees["a.cdxml"]), ("b", fb, trees["b.cdxml"])):
+        xl, xf = f_.fields.get("xlabels"), f_.fields.get("xfrags")
+        V.ensure(f"files/{nm}:labels-are-the-bold-single-run-text-boxes", z3.BoolVal(isinstance(xl, DictV) and xl.keys == ["k1", "k2"] and xl.vals[0] is lab and xl.vals[1] is lab2))
+        V.ensure(f"files/{nm}:fragments-are-those-with-a-bond-in-page-then-group-order", z3.BoolVal(isinstance(xf, ListV) and len(xf.items) == 2 and xf.items[0] is f0 and xf.items[1] is f1))
+        V.ensure(f"files/{nm}:bond-length-read-from-the-document", I.eq(f_.fields.get("bond_length"), 14.4))
+    # the same label in two open files: each resolves inside its own file, whatever was asked of the other one before
+    # (label above both candidate fragments is excluded: that is the KeyError path, covered by the __getitem__ unit)
+    la, lb = ys.get(id(trees["a.cdxml"][3])), ys.get(id(trees["b.cdxml"][3]))
+    for (root, f0, f1, lab, lab2) in trees.values():
+        V.assume(z3.And(ys[id(f0)][1].z < ys.setdefault(id(lab), (V.sym("lx", "real"), V.sym(f"ly{len(ys)}", "real")))[1].z))
+    r1 = V.method(fa, "__getitem__", ["k1"], qual=f"{CD}:CDXMLFile.__getitem__")
+    r2 = V.method(fb, "__getitem__", ["k1"], qual=f"{CD}:CDXMLFile.__getitem__")
+    r3 = V.method(fa, "__getitem__", ["k1"], qual=f"{CD}:CDXMLFile.__getitem__")
+    ok = r1.returned and r2.returned and r3.returned and len(parsed) == 3
+    V.ensure("files/lookups-return", z3.BoolVal(ok))
+    if ok:
+        V.ensure("files/each-file-resolves-its-own-fragment", z3.BoolVal(parsed[0][0] is fa and parsed[0][1] is trees["a.cdxml"][1]
+                                                                        and parsed[1][0] is fb and parsed[1][1] is trees["b.cdxml"][1]
+                                                                        and parsed[2][1] is trees["a.cdxml"][1]))
 
 
 @P.bounded_standin("bundled drawings: constitution oracle, determinism, wedge<->hash mirroring on the real reader (CPython)",
